@@ -555,3 +555,138 @@ def r_subset_dim(cx):
                   "their fill values - xyz() reports a NaN height, set_xyz() fills the whole tuple with NaN" % (
                       ty.strip("<"), d, meth, k), cx.where(cx.f.fn(ms[meth]).d["span"]))
     cx.count("R-SUBSET-DIM", "specialised_accessors", n)
+
+
+# ---------------------------------------------------------------------------------------------------------------------
+# R-OPS-ELEMENTWISE, R-CTOR-SIBLINGS (C19): the macro-generated operators and the typed constructors of the four tuples
+
+_OPS = {"add": "Add", "sub": "Sub", "mul": "Mul", "div": "Div"}
+_DIMS = {"Coor2D": 2, "Coor32": 2, "Coor3D": 3, "Coor4D": 4}
+
+
+def _plain(t):
+    t = mir.strip_refs(t)
+    while t[0] == "cast" or (t[0] == "proj" and t[2] == "deref"):
+        t = mir.strip_refs(t[2] if t[0] == "cast" else t[1])
+    return t
+
+
+def _elem_of(t):
+    """(argument number, element index) when the term reads element k of the array inside argument a"""
+    t = _plain(t)
+    if t[0] == "proj" and isinstance(t[2], tuple) and t[2][0] == "elem" and len(t[2]) == 2 and isinstance(t[2][1], int):
+        b = _plain(t[1])
+        if b[0] == "proj" and b[2] == ("f", 0):
+            a = _plain(b[1])
+            if a[0] == "arg":
+                return a[1], t[2][1]
+    return None
+
+
+@rule("R-OPS-ELEMENTWISE", ["C19"])
+def r_ops_elementwise(cx):
+    """`a + b`, `a - b`, `a * b`, `a / b` on the tuple types are element-wise: element k of the result is
+    `a[k] op b[k]`, for every k below the dimension of the result type, with the operator the trait names."""
+    n = seen = 0
+    for name in sorted(cx.f.lib["fns"]):
+        tail = name.rsplit("::", 1)[-1]
+        if not (name.startswith("coordinate::") and "impl std::ops::" in name and tail in _OPS and "{closure" not in name):
+            continue
+        ty = name.split(" for coordinate::", 1)[1].split(">::", 1)[0].rsplit("::", 1)[-1] if " for coordinate::" in name else None
+        if ty not in _DIMS:
+            continue
+        seen += 1
+        f = cx.f.fn(name)
+        rt = E.return_term(f)
+        rt = mir.strip_refs(rt) if rt is not None else None
+        if not (rt is not None and rt[0] == "agg" and isinstance(rt[1], tuple) and rt[1][0] == "adt" and len(rt[2]) == 1):
+            continue
+        arr = mir.strip_refs(rt[2][0])
+        if not (arr[0] == "agg" and arr[1] == "array"):
+            continue
+        n += 1
+        bad = None
+        if len(arr[2]) != _DIMS[ty]:
+            bad = "the result has %d elements" % len(arr[2])
+        for k, e in enumerate(arr[2]):
+            e = _plain(e)
+            if not (e[0] == "bin" and e[1] == _OPS[tail]):
+                bad = bad or "element %d is not `a[%d] %s b[%d]`" % (k, k, _OPS[tail], k)
+                continue
+            l, r = _elem_of(e[2]), _elem_of(e[3])
+            if l != (1, k) or r != (2, k):
+                bad = bad or "element %d is computed from %s and %s" % (
+                    k, "a[%d]" % l[1] if l and l[0] == 1 else mir.show(e[2], maxd=4), "b[%d]" % r[1] if r and r[0] == 2 else mir.show(e[3], maxd=4))
+        short = name.split("impl std::ops::", 1)[1].replace("coordinate::", "")
+        cx.ob("R-OPS-ELEMENTWISE", short, bad is None,
+              "%s is element-wise" % short if bad is None else
+              "%s: %s - the operator does not agree with its element-wise definition" % (short, bad), cx.where(f.d["span"]))
+    cx.count("R-OPS-ELEMENTWISE", "operators", n)
+
+
+def _canon(t, depth=0):
+    t = _plain(t)
+    if depth > 12:
+        return ("deep",)
+    if t[0] == "call" and isinstance(t[1], str):
+        return ("call", t[1].rsplit("::", 1)[-1], tuple(_canon(a, depth + 1) for a in t[2]))
+    if t[0] == "agg":
+        return ("agg",) + tuple(_canon(a, depth + 1) for a in t[2])
+    if t[0] == "bin":
+        return ("bin", t[1], _canon(t[2], depth + 1), _canon(t[3], depth + 1))
+    if t[0] == "un":
+        return ("un", t[1], _canon(t[2], depth + 1))
+    if t[0] == "const":
+        v = t[2]
+        if isinstance(v, tuple) and v and v[0] == "float":
+            return ("num", repr(float(v[1])))
+        return ("const", str(v))
+    if t[0] == "arg":
+        return t
+    return ("other", mir.show(t, maxd=3))
+
+
+@rule("R-CTOR-SIBLINGS", ["C19"])
+def r_ctor_siblings(cx):
+    """The typed constructors `geo`, `gis`, `raw`, `arcsec`, `iso_dm`, `iso_dms`, `nan`, `origin`, `ones` exist for all four
+    tuple types and mean the same: the values a constructor computes for the elements both types have agree between
+    every two tuple types (compared as terms over the arguments, float width casts ignored). A constructor that decodes
+    its latitude with another conversion than its siblings is the odd one out."""
+    types = [("coor2d", "Coor2D"), ("coor32", "Coor32"), ("coor3d", "Coor3D"), ("coor4d", "Coor4D")]
+    n = 0
+    for ctor in ("geo", "gis", "raw", "arcsec", "iso_dm", "iso_dms", "nan", "origin", "ones"):
+        forms = {}
+        for mod, ty in types:
+            name = "coordinate::%s::%s::%s" % (mod, ty, ctor)
+            if not cx.f.has_fn(name):
+                continue
+            f = cx.f.fn(name)
+            rt = E.return_term(f)
+            if rt is None:
+                continue
+            c = _canon(rt)
+            # the list of per-element values: arguments of a delegating call, or the elements of the array
+            if c[0] == "call":
+                forms[ty] = (("call", c[1]), list(c[2]), f)
+            elif c[0] == "agg" and len(c) == 2 and c[1][0] == "agg":
+                forms[ty] = (("array",), list(c[1][1:]), f)
+        if len(forms) < 2:
+            continue
+        n += 1
+        for ty, (kind, vals, f) in sorted(forms.items()):
+            agree = disagree = 0
+            for ty2, (kind2, vals2, _) in forms.items():
+                if ty2 == ty or kind2 != kind:
+                    continue
+                m = min(len(vals), len(vals2), 2)
+                if vals[:m] == vals2[:m]:
+                    agree += 1
+                else:
+                    disagree += 1
+            ok = not (disagree > agree)
+            cx.ob("R-CTOR-SIBLINGS", "%s::%s" % (ty, ctor), ok,
+                  "%s::%s computes its horizontal elements as its siblings do" % (ty, ctor) if ok else
+                  "%s::%s computes its horizontal elements differently from the same constructor of the other tuple types "
+                  "(%s): the typed constructors no longer agree with each other" % (
+                      ty, ctor, ", ".join(str(v)[:80] for v in vals[:2])), cx.where(f.d["span"]))
+    cx.count("R-CTOR-SIBLINGS", "constructors", n)
